@@ -34,3 +34,19 @@ Proof.
   cbv zeta in S. rewrite <- (fin_idx_eq _ _ _ _ _ _ H) in S. destruct S as (_ & _ & _ & _ & _ & Hn & Hnb).
   unfold Assembly.hm_dim, to_igeom. simpl. rewrite Hn, Hnb. lia.
 Qed.
+
+(* every vertex of a mesh that takes part in the computation (not isolated) -- also a vertex it shares with an excluded
+   mesh -- carries an unknown whose index is a row of the head matrix *)
+Theorem participating_vertex_has_row g hasc zero snz fi sig sinv ind :
+  finalize g hasc zero snz false = (StOk, Some fi) -> meshes_well_formed g ->
+  forall k v, (k < length (g_meshes g))%nat -> f_iso (nth k (mk_flags (fi_marks fi)) flags0) = false ->
+  In v (Assembly.mverts (Assembly.gmesh (to_igeom g fi sig sinv ind) k)) ->
+  (Assembly.vix (to_igeom g fi sig sinv ind) v < Assembly.hm_dim (to_igeom g fi sig sinv ind))%N.
+Proof.
+  intros Hf Hw k v Hk Hiso Hv.
+  pose proof (mesh_verts_valid g hasc zero snz fi Hf Hw sig sinv ind k Hk Hiso v Hv) as HV.
+  apply (VV_In g fi) in HV. destruct HV as [u [-> [Hu Val]]].
+  rewrite (vix_valid g hasc zero snz fi Hf sig sinv ind u Hu Val).
+  pose proof (vindex_range g hasc zero snz fi Hf u Hu Val) as R.
+  rewrite (hm_dim_new g hasc zero snz fi sig sinv ind Hf). unfold Nv in R. lia.
+Qed.
